@@ -83,11 +83,13 @@ def run(res, tier, seed):
                 # smoothed PRT temperature of constant-per-thermometer readings: boxcar mean of the interpolated series
                 exp, sm = thermal.spec_bt(co, chan, lns, residue, [x / 3.0 for x in prt3], [float(cbb)] * n, [float(cs)] * n, {n // 2: [float(cbb)]})
                 tbb_mid = sm[0][n // 2]
-                bt_anchor = float(out[n // 2, cbb])
-                if math.isnan(bt_anchor) or abs(bt_anchor - tbb_mid) > 1.0:
-                    res.violations.append(("scene at the internal-target count does not read the internal-target temperature within 1 K",
-                                           dict(ctx, bt=bt_anchor, target_temperature=tbb_mid)))
-                else:
+                # constant telemetry: every line (first and last included) must read the target temperature at the target count
+                for li in (0, 1, n // 2, n - 2, n - 1):
+                    bt_anchor = float(out[li, cbb])
+                    if math.isnan(bt_anchor) or abs(bt_anchor - tbb_mid) > 1.0:
+                        res.violations.append(("scene at the internal-target count does not read the internal-target temperature within 1 K",
+                                               dict(ctx, line_index=li, bt=bt_anchor, target_temperature=tbb_mid)))
+                        break
                     worst_anchor = max(worst_anchor, abs(bt_anchor - tbb_mid))
                 res.add_case((sc, chan, tgt, cs, cbb, first, residue), True, ctx)
                 # Coq correspondence on a few counts
